@@ -5,6 +5,7 @@ go 1.21
 require (
 	github.com/anishathalye/porcupine v1.3.0
 	github.com/go-sql-driver/mysql v1.3.1-0.20170715192408-3955978caca4
+	github.com/gorilla/websocket v1.0.1-0.20161018003955-8003df83eef3
 	github.com/samsarahq/thunder v0.0.0
 	github.com/siddontang/go-mysql v0.0.0-20160925014134-d8e777f00cdb
 )
@@ -12,7 +13,6 @@ require (
 require (
 	github.com/gogo/protobuf v1.1.2-0.20180914054005-e14cafb6a2c2 // indirect
 	github.com/golang/protobuf v1.4.2 // indirect
-	github.com/gorilla/websocket v1.0.1-0.20161018003955-8003df83eef3 // indirect
 	github.com/graphql-go/graphql v0.4.19-0.20160928141709-8c317402d1b7 // indirect
 	github.com/juju/errors v0.0.0-20220203013757-bd733f3c86b9 // indirect
 	github.com/ngaut/log v0.0.0-20160810023011-cec23d3e10b0 // indirect
